@@ -9,6 +9,12 @@ def base(modules, apps, contexts=None, builders=None, **doc_extra):
     return {"laze-project.yml": [dict({"contexts": ctx, "builders": builders or [{"name": "b0"}, {"name": "b1", "env": {"X": "bx"}}],
                                       "modules": modules, "apps": apps}, **doc_extra)]}
 
+def cases_portable():
+    """the cases whose files do not mention the absolute scratch directory: for checks that compare two runs made
+    in different scratch directories with each other"""
+    import json
+    return [(f, c) for f, c in cases() if "@ABSROOT@" not in json.dumps(f)]
+
 def cases():
     out = []
     # 1/2: conditional imports whose condition module is absent / present
@@ -379,5 +385,36 @@ def cases():
     f = base(mods, [{"name": "app", "sources": ["main.c"], "depends": ["startup"]}, {"name": "app2", "sources": ["main.c"], "depends": ["startup", "abs2"]}],
              builders=[{"name": "b0", "env": {"ASFLAGS": "-b0"}}, {"name": "b1", "env": {"ASFLAGS": "-b1"}}])
     f["laze-project.yml"][0]["contexts"][0]["rules"] = RULES + [{"name": "AS", "in": "S", "out": "o", "cmd": "as ${ASFLAGS} ${in} -o ${out}", "shareable": False}]
+    out.append((f, {}))
+    # 51: --disable next to in-file disables of the builder and of an ancestor context: the in-file ones stay in force
+    mods = [{"name": "legacy_io", "sources": ["legacy_io.c"]}, {"name": "float_printf", "sources": ["fp.c"]}, {"name": "net", "sources": ["net.c"]}]
+    f = base(mods, [{"name": "app", "sources": ["main.c"], "selects": ["?legacy_io", "?float_printf", "?net"]}],
+             contexts=[{"name": "basec", "parent": "default", "disables": ["legacy_io"]}],
+             builders=[{"name": "tiny", "parent": "basec", "disables": ["float_printf"]}, {"name": "big", "parent": "basec"}])
+    out.append((f, {"disable": ["net"]})); out.append((f, {}))
+    # 52: an empty allowlist (own, or from defaults, also two files down) means: built nowhere
+    f = {"laze-project.yml": [{"contexts": [{"name": "default", "rules": RULES, "env": {"bindir": "${build-dir}/${builder}/${app}"}}],
+                               "builders": [{"name": "b0"}, {"name": "b1"}], "subdirs": ["exp"],
+                               "apps": [{"name": "parked", "sources": ["p.c"], "allowlist": []}, {"name": "normal", "sources": ["n.c"]},
+                                        {"name": "unblocked", "sources": ["u.c"], "blocklist": []}]}],
+         "exp/laze.yml": [{"defaults": {"app": {"allowlist": []}}, "subdirs": ["deeper"], "apps": [{"name": "nowhere", "sources": ["x.c"]}, {"name": "onb1", "sources": ["y.c"], "allowlist": ["b1"]}]}],
+         "exp/deeper/laze.yml": [{"apps": [{"name": "deeper_nowhere", "sources": ["z.c"]}]}]}
+    out.append((f, {})); out.append((f, {"local": "exp"}))
+    # 53: var_options with from: — the rendered variable follows the SOURCE list of each module's env
+    #     (exported and local additions), not only the global one
+    mods = [{"name": "net", "sources": ["net.c"], "env": {"export": {"features": ["ipv6"]}, "local": {"features": ["netdebug"]}}},
+            {"name": "plain", "sources": ["plain.c"]}]
+    f = base(mods, [{"name": "app", "sources": ["main.c"], "depends": ["net", "plain"], "env": {"global": {"features": ["appwide"]}}}],
+             builders=[{"name": "b0", "var_options": {"FEATURE_DEFINES": {"from": "features", "prefix": "-DFEATURE_"}, "features": {"joiner": ","}}, "env": {"features": ["base"]}},
+                       {"name": "b1", "env": {"features": ["base"]}}])
+    f["laze-project.yml"][0]["contexts"][0]["rules"] = [{"name": "CC", "in": "c", "out": "o", "cmd": "cc ${FEATURE_DEFINES} [${features}] -c ${in} -o ${out}"},
+                                                        {"name": "LINK", "in": "o", "cmd": "ld ${FEATURE_DEFINES} ${in} -o ${out}"}]
+    out.append((f, {}))
+    # 54: disables at several levels of a context chain that is declared child-first: all of them hold for the builder
+    mods = [{"name": "legacy_uart", "sources": ["lu.c"]}, {"name": "heavy", "sources": ["heavy.c"]}, {"name": "console", "sources": ["console.c"], "selects": ["?legacy_uart", "?heavy", "?third"]},
+            {"name": "third", "sources": ["third.c"]}]
+    f = base(mods, [{"name": "app", "sources": ["main.c"], "depends": ["console"]}],
+             contexts=[{"name": "family", "parent": "vendor", "disables": ["heavy"]}, {"name": "vendor", "parent": "default", "disables": ["legacy_uart"]}],
+             builders=[{"name": "board", "parent": "family", "disables": ["third"]}, {"name": "b0"}])
     out.append((f, {}))
     return out
